@@ -276,6 +276,7 @@ func runC20(r *ev.Run) {
 			if c.Cost() > 0 {
 				r.NontrivialN(1)
 			}
+			r.Outcome(fmt.Sprintf("preemptions=%d goroutines=%d", c.Cost(), len(sc.plan)))
 			if c.Cost() == 2 && si == 3 {
 				r.Sample(map[string]interface{}{"scenario": name, "schedule": clip(trace)})
 			}
